@@ -22,6 +22,10 @@ for fam in fams:
             vs = [dict(name="O0", args=["-O0"], src=src), dict(name="O1", args=["-O1"], src=src)]
         cases.append(dict(id=cid, fam=p["fam"], body=p["body"], fnames=fn, variants=vs, locals=p.get("locals")))
         bodies[cid] = p["body"]
+        if p["fam"] == "FO":
+            cases.append(dict(id=cid + "-signed", fam=p["fam"], body=p["body"], fnames=fn, locals=p.get("locals"), extra_decl=checks_refine.SIGNED_PLAIN,
+                              variants=[dict(name=v["name"], args=v["args"] + ["--fsigned_char"], src=src) for v in vs]))
+            bodies[cid + "-signed"] = p["body"]
     pl = refine.Pipeline("bl_" + fam, tier="thorough")
     pl.run(cases, sem=(pid == "C01"), pair=(pid != "C01"), maxin=48, timeout=7000, small_fams=checks_refine.SMALL_FAMS, defined_only=(pid != "C01"))
     bad = {}
